@@ -37,6 +37,39 @@ func Chains(leaves []any, fn func(t any) bool) {
 	}
 }
 
+// IndentDepths are the depths at which depth x indent crosses the fixed tables
+// of blanks (128) and tabs (32) the writers slice their indentation from, for
+// the indents of IndentValues: the clamp of the closing and of the member
+// indent are separate pieces of code.
+var IndentDepths = []int{17, 18, 19, 24, 25, 26, 30, 31, 32, 33, 41, 42, 43, 62, 63, 64, 65, 126, 127, 128, 129, 130}
+
+// IndentValues: divisors and non-divisors of 128, and values around and beyond it.
+var IndentValues = []int{1, 2, 3, 4, 5, 7, 8, 127, 128, 129, 300}
+
+// IndentChains enumerates deep nestings in which every level also has a
+// sibling (so that a lost separator or line break merges two tokens): arrays
+// [v 3], objects {a:v b:4} and the two alternating, besides the plain chains.
+func IndentChains(fn func(t any) bool) {
+	for _, d := range IndentDepths {
+		for _, kind := range []string{"arr", "obj", "alt"} {
+			if !fn(Chain(kind, d, int64(1))) {
+				return
+			}
+			var v any = []any{int64(1), int64(2)}
+			for l := d; l >= 1; l-- {
+				if kind == "arr" || (kind == "alt" && l%2 == 1) {
+					v = []any{v, int64(3)}
+				} else {
+					v = map[string]any{"a": v, "b": int64(4)}
+				}
+			}
+			if !fn(v) {
+				return
+			}
+		}
+	}
+}
+
 // TableCellKinds are the cell fillings of the table family.
 var TableCellKinds = []string{"int", "str", "arr", "map", "mapvar", "bycol", "byrowcol", "nilstr"}
 
